@@ -402,6 +402,9 @@ def run(ctx):
 
     _c01.r01_14_compile_subroutine(ctx)  # the convention-specific deferred code (output load / frame_bury 0) stands before every retsub (shared with C01)
     _c04.r04_4_immediates(ctx)  # version-dependent choice between immediate and stack forms (shared with C04)
+    from rules import c11 as _c11
+
+    _c11.r11_9_convention_is_asked_for(ctx)  # the convention a routine is evaluated for is the compile's own option (shared with C11)
     _c10.r10_1_assignment(ctx)  # with the slot optimiser off nothing cancels a temporary that was given a user-reserved index (shared with C10)
     return (
         "Abstract evaluation of the slot optimiser's own code (skip-set construction, dependency scan, cancellation + deletion) on abstract block graphs and on all short "
